@@ -7,6 +7,7 @@ import (
 	"fmt"
 	"os"
 	"path/filepath"
+	"reflect"
 	"strings"
 
 	"github.com/Vedant9500/WTF/internal/cli"
@@ -472,6 +473,36 @@ func execNotebook(ops []string, mon *Mon) (out []string) {
 					mon.Tag("searched-for-saved-word")
 					if !found {
 						mon.Hit("C08", "saved-not-found-by-search", map[string]interface{}{"op": nbPretty(o), "word": marker, "results": len(res), "db": len(db.Commands)})
+					}
+					// the keyword search behind `wtf pipeline` (what the save-pipeline message tells the user to run next)
+					if db.Commands[idx].Pipeline {
+						foundP := false
+						for _, r := range db.SearchWithPipelineOptions(marker, database.SearchOptions{Limit: len(db.Commands) + 10, PipelineOnly: true}) {
+							if r.Command == &db.Commands[idx] {
+								foundP = true
+							}
+						}
+						mon.Tag("pipeline-searched-for-saved-word")
+						if !foundP {
+							mon.Hit("C08", "saved-not-found-by-search", map[string]interface{}{"op": nbPretty(o), "word": marker, "entry_point": "SearchWithPipelineOptions (wtf pipeline)", "db": len(db.Commands)})
+						}
+					}
+				}
+				// "exactly the main entries followed by the notebook entries": entry for entry what the loader makes of each file
+				// on its own, every field included (the lower-case copies the keyword searches read, too)
+				if m, e1 := database.LoadDatabase(mainPath); e1 == nil {
+					if n, e2 := database.LoadDatabase(path); e2 == nil {
+						want := append(append([]database.Command{}, m.Commands...), n.Commands...)
+						if !reflect.DeepEqual(want, db.Commands) {
+							at := -1
+							for i := range want {
+								if i >= len(db.Commands) || !reflect.DeepEqual(want[i], db.Commands[i]) {
+									at = i
+									break
+								}
+							}
+							mon.Hit("C08", "merged-order", map[string]interface{}{"op": nbPretty(o), "why": "the merged database is not the main entries followed by the notebook entries as loaded on their own", "first_difference_at": at, "main": len(m.Commands), "personal": len(n.Commands), "merged": len(db.Commands)})
+						}
 					}
 				}
 			default:
